@@ -26,7 +26,7 @@ MCRemoteEnd(s) == RemoteEnd(s) /\ Step("End", s, NoM, {})
 MCLiveGive(s, it) == LiveGive(s, it) /\ Step("LiveGive", s, it, {})
 MCManagerPoll ==
     /\ ManagerPoll
-    /\ Step("Poll", None, NoM, {ObsM(r.m) : r \in PollSet(mgr, [s \in Sessions |-> ss[s].liveq])})
+    /\ Step("Poll", None, NoM, {ObsM(r.m) : r \in PollSetG(mgr, [s \in Sessions |-> ss[s].liveq], FALSE)})
 
 ---------------------------------------------------------------------------
 MCLifecycleInit == LifecycleInit /\ hist = <<>>
@@ -47,11 +47,13 @@ ExportLifecycle ==
 
 ---------------------------------------------------------------------------
 MCLiveInit == LiveInit /\ hist = <<>>
+MCLiveClose(s) == CanLeave(s) /\ MCRemoteClose(s)
+MCLiveEnd(s) == (rem[s].pos = "Closed" \/ CanLeave(s)) /\ MCRemoteEnd(s)
 MCLiveNext ==
     \/ MCManagerPoll
     \/ \E s \in Sessions :
         \/ MCRun(s)
-        \/ MCRemoteClose(s) \/ MCRemoteEnd(s)
+        \/ MCLiveClose(s) \/ MCLiveEnd(s)
         \/ \E x \in LiveOps : MCRemoteLive(s, x)
 MCLiveSpec == MCLiveInit /\ [][MCLiveNext \/ (InternallyQuiet /\ UNCHANGED mcvars)]_mcvars
 
@@ -61,6 +63,10 @@ ExportLive ==
     LiveDone => PrintT(<<"REPLAY", ToJson([kind |-> "live", cap |-> DedupCap, topics |-> topicOf, steps |-> hist])>>)
 
 NoHistView == <<ss, rem, mgr, topicOf, faults>>
+
+\* export runs: no terminal stuttering (a simulated trace ends where the behaviour is over)
+GenLifecycleSpec == MCLifecycleInit /\ [][MCLifecycleNext]_mcvars
+GenLiveSpec == MCLiveInit /\ [][MCLiveNext]_mcvars
 
 \* exhaustive checking runs: the plain actions of TopicSync, no history
 CkLifecycleSpec ==
